@@ -78,7 +78,7 @@ CHECK_DEADLOCK FALSE
 """
 
 
-def cfg_gen(fam: str, wraps: int, pair_leafs: list[str], astyles: list[str], pstyles: list[str], cyc: tuple) -> str:
+def cfg_gen(fam: str, wraps: int, pair_leafs: list[str], astyles: list[str], pstyles: list[str], cyc: tuple, hier: tuple) -> str:
     return f"""SPECIFICATION Spec
 CONSTANTS
  LeafSet = {tla(set(ALL_LEAFS))}
@@ -91,6 +91,12 @@ CONSTANTS
  Cycle3Kinds = {tla(set(cyc[1]))}
  CycleStyles = {tla(set(cyc[2]))}
  CycleMixed = {tla(cyc[3])}
+ HierStyles = {tla(set(hier[0]))}
+ HierMetas = {tla({"inherit", "extend", "own"})}
+ HierOverrides = {tla(set(hier[1]))}
+ HierDepths = {tla({2, 3})}
+ HierMixins = {tla(set(hier[2]))}
+ HierTops = {tla({"sub", "base_then_sub", "sub_then_base"})}
  Families = {tla({fam})}
 INVARIANT Laws
 CHECK_DEADLOCK FALSE
@@ -119,12 +125,15 @@ def generate(chk: Check) -> dict[str, Any]:
     mc_fams = [
         ("kw", "camel", 4, []),
         ("camel", "kw", 3, ["list", "bad", "twin"]),
+        ("camel", "kw", 3, ["hier", "nobase"]),
     ]
     if thorough:
         mc_fams = [
             ("kw", "camel", 4, ["list", "bad", "second"]),
             ("camel", "kw", 4, ["list", "bad", "twin"]),
             ("swap", "swap", 4, ["twin"]),
+            ("camel", "kw", 4, ["hier", "nobase"]),
+            ("kw", "camel", 3, ["hier"]),
             ("plain", "fold", 3, ["list", "bad", "second"]),
         ]
     six = ["nf", "nr", "kf", "kr", "mr", "av"]
@@ -159,12 +168,16 @@ def generate(chk: Check) -> dict[str, Any]:
         ("pair", ["plain"], ps) for ps in (["plain", "camel", "kw"], ["fold", "swap"], ["diff", "ident"])
     ]
     gen_runs.append(("cycle", ["plain"], ["plain"]))
+    gen_runs.append(("hier", ["plain"], ["plain"]))
+    hier = (["camel", "kw"], ["none", "type"], [False])
+    if thorough:
+        hier = (["camel", "kw", "plain"], ["none", "type", "default"], [False, True])
     cyc = (["list", "dict", "direct", "opt"], ["list", "direct"], ["camel", "kw"], True)
     if thorough:
         cyc = (["list", "dict", "direct", "opt"], ["list", "dict", "direct", "opt"], ["camel", "kw", "plain"], False)
     for i, (fam, ast, pst) in enumerate(gen_runs):
         tasks[f"gen{i}"] = lambda fam=fam, ast=ast, pst=pst, i=i: run_tlc(
-            sub_scratch(chk, f"gen{i}"), "Gen_Codec", cfg_gen(fam, wraps, pl, ast, pst, cyc), workers=2, timeout=1500, heap="3g"
+            sub_scratch(chk, f"gen{i}"), "Gen_Codec", cfg_gen(fam, wraps, pl, ast, pst, cyc, hier), workers=2, timeout=1500, heap="3g"
         )
     for i, gf in enumerate(graph_fams):
         tasks[f"graphs{i}"] = lambda gf=gf, i=i: run_tlc(sub_scratch(chk, f"gr{i}"), "Gen_CodecGraphs", cfg_graphs(*gf), workers=4, timeout=1500, heap="3g")
@@ -190,7 +203,7 @@ def generate(chk: Check) -> dict[str, Any]:
     chk.cov["defective_design_refuted"] = True
     for i, (fam, ast, pst) in enumerate(gen_runs):
         r = res[f"gen{i}"]
-        lab = f"Gen_Codec[{fam},{'+'.join(ast if fam == 'single' else pst if fam == 'pair' else cyc[2])},wraps<={wraps}] (Laws)"
+        lab = f"Gen_Codec[{fam},{'+'.join(ast if fam == 'single' else pst if fam == 'pair' else cyc[2] if fam == 'cycle' else hier[0])},wraps<={wraps}] (Laws)"
         chk.add_tlc(lab, r)
         chk.require(r.ok, f"reference codec violates Laws in {lab}")
         sc = r.printed.get("SCEN", [])
